@@ -116,7 +116,7 @@ class C16(runner.Check):
 					"byte"], [4, 3, 3, 2]), "pick": f.random()}
 			return case
 		# loci world
-		n_chr = r.randint(2, 4)
+		n_chr = r.randint(1, 4)
 		chroms = []
 		for i in range(n_chr):
 			L = r.randint(50, 600)
@@ -175,6 +175,8 @@ class C16(runner.Check):
 				e_ = max(s_, e_)
 				name = "chrX_foreign" if kind == "foreign" else c["name"]
 				rows.append([name, s_, e_])
+				if r.chance(0.1):
+					rows.append([name, s_, e_])           # the same locus twice
 			sets.append(rows)
 		use_chroms = None
 		if r.chance(0.4):
